@@ -85,7 +85,7 @@ def check_quadratic(case):
     if not np.isfinite(E):
         out.fail("energy_not_finite", "strain energy %r" % E)
         return out
-    if 0 < scale < 1e-250:
+    if scale < 1e-250:
         # products of stiffness, squared eigenstrain and volume this small leave the normal floating-point range
         # (denormal energies carry a few digits only): sign and finiteness are judged above, the relative identities are not
         out.label("energy_in_denormal_range")
@@ -93,7 +93,13 @@ def check_quadratic(case):
             out.fail("energy_negative", "strain energy %r < 0" % E, shear=shear)
         return out
     if E < -1e-9 * scale:
-        out.fail("energy_negative", "strain energy %r < 0 (scale %r) for %r" % (E, scale, {k: case[k] for k in ("cM", "cP", "eig", "r")}), shear=shear)
+        # is the sign a property of the formulas or of the sphere nodes?  kawin's own midpoint integration decides
+        sem = _build(case)
+        sem.description.setIntegrationIntervals(128, 128)
+        Em = float(sem.compute(r))
+        nodes_only = bool(np.isfinite(Em) and Em >= -1e-9 * scale)
+        out.fail("energy_negative", "strain energy %r < 0 (scale %r) for %r; with the built-in 128x128 midpoint integration instead of the Lebedev nodes: %r" % (E, scale, {k: case[k] for k in ("cM", "cP", "eig", "r")}, Em),
+                 shear=shear, nodes_only=nodes_only, dev=(abs(E - Em) / abs(Em) if Em else float("inf")), aspect=float(r.max() / r.min()))
     s = case["s"]
     Es = float(se.compute(r * s))
     if not math.isclose(Es, s ** 3 * E, rel_tol=1e-9, abs_tol=1e-12 * scale * s ** 3):
@@ -452,7 +458,14 @@ def pred_lebedev(case, v):
     return False
 
 
-PREDICATES = {"lebedev_nodes_inexact": pred_lebedev}
+def pred_negative_nodes_only(case, v):
+    """Negative energy that disappears with kawin's midpoint integration on a non-spherical particle: the sphere nodes, not the formulas."""
+    d = v.get("data", {})
+    r = case.get("r", [1, 1, 1])
+    return bool(d.get("nodes_only")) and max(r) / min(r) >= 5 and isinstance(d.get("dev"), (int, float)) and d["dev"] <= ENVELOPE_ENERGY
+
+
+PREDICATES = {"lebedev_nodes_inexact": pred_lebedev, "negative_with_lebedev_nodes_only": pred_negative_nodes_only}
 
 
 def clauses():
